@@ -36,6 +36,9 @@ META = {
         "values mitmproxy accepts (e.g. host 'bad host', port 70000) count as valid edits: atomicity, not validation, is the property",
         "invalid parts: unknown top-level/request/response key, port 'x', code 'abc', malformed header lists, non-string content, non-latin-1 reason, "
         "non-object section, response fields on a flow without response, request/response fields on a TCP flow, malformed JSON / wrong content type / non-object body",
+        "extended invalid values (per field one value for every way the conversion/assignment can fail: None, '', {}, 1e999, Infinity, NaN, deep nesting, "
+        "wrong container shapes, null header name/value, lone surrogate, non-object sections) are used alone and paired with a valid field before and after them "
+        "(one valid field per section in quick, every valid field in thorough); a KeyError/LookupError could not be provoked through any field",
         "depth 2: the only history-dependent element of Flow is the single backup slot, which is set by the first PUT and cleared by a revert",
     ],
 }
@@ -73,7 +76,79 @@ INVALID = [
     ("response", "reason", "€", "malformed-other"),
 ]
 ENVELOPES = ["non-object-body", "non-object-section", "malformed-json", "wrong-content-type", "empty-body"]
+
+
+def RAW(text):
+    """a value written into the JSON body verbatim (literals json.dumps cannot produce: 1e999, Infinity, NaN, deep nesting)"""
+    return {"$raw": text}
+
+
+DEEP = "[" * 40 + "1" + "]" * 40  # deep, but far from any recursion limit of the JSON decoder or of repr()
+
+# Extended invalid-value alphabet: per editable field, one value for every *kind of failure* the conversion/assignment can
+# run into (wrong type, unparsable text, float that has no integer value, wrong container shape, unencodable text,
+# non-object section).  Key "$section" = the whole request/response section is this value.
+# (section, key, value, invalid_kind, what it provokes in today's implementation - informational)
+INVALID_EXT = [
+    ("request", "port", None, "malformed-port-or-code", "TypeError"),
+    ("request", "port", RAW("1e999"), "malformed-port-or-code", "OverflowError"),
+    ("request", "port", RAW("Infinity"), "malformed-port-or-code", "OverflowError"),
+    ("request", "port", RAW("-Infinity"), "malformed-port-or-code", "OverflowError"),
+    ("request", "port", RAW("NaN"), "malformed-port-or-code", "ValueError"),
+    ("request", "port", RAW(DEEP), "malformed-port-or-code", "TypeError"),
+    ("request", "port", {}, "malformed-port-or-code", "TypeError"),
+    ("request", "port", "", "malformed-port-or-code", "ValueError"),
+    ("response", "code", None, "malformed-port-or-code", "TypeError"),
+    ("response", "code", RAW("1e999"), "malformed-port-or-code", "OverflowError"),
+    ("response", "code", RAW("Infinity"), "malformed-port-or-code", "OverflowError"),
+    ("response", "code", RAW("NaN"), "malformed-port-or-code", "ValueError"),
+    ("response", "code", RAW(DEEP), "malformed-port-or-code", "TypeError"),
+    ("request", "headers", 5, "malformed-header-list", "TypeError"),
+    ("request", "headers", [[1, 2]], "malformed-header-list", "TypeError"),
+    ("request", "headers", [None], "malformed-header-list", "TypeError"),
+    ("request", "headers", {"a": "b"}, "malformed-header-list", "TypeError"),
+    ("request", "headers", RAW(DEEP), "malformed-header-list", "TypeError"),
+    ("response", "headers", "x", "malformed-header-list", "TypeError"),
+    ("response", "headers", [["a", None]], "malformed-header-list", "null-stored-then-serialisation-fails"),
+    ("request", "headers", [[None, "a"]], "malformed-header-list", "null-stored-then-serialisation-fails"),
+    ("request", "trailers", "x", "malformed-header-list", "TypeError"),
+    ("response", "trailers", [["a"]], "malformed-header-list", "TypeError"),
+    ("request", "content", "\ud800", "malformed-other", "UnicodeEncodeError"),
+    ("request", "content", [], "malformed-other", "TypeError"),
+    ("response", "content", 5, "malformed-other", "TypeError"),
+    ("response", "content", RAW(DEEP), "malformed-other", "TypeError"),
+    ("request", "$section", 5, "non-object-section", "AttributeError"),
+    ("request", "$section", None, "non-object-section", "AttributeError"),
+    ("request", "$section", [], "non-object-section", "AttributeError"),
+    ("request", "$section", "x", "non-object-section", "AttributeError"),
+    ("response", "$section", RAW("1e999"), "non-object-section", "AttributeError"),
+    ("response", "$section", RAW(DEEP), "non-object-section", "AttributeError"),
+]
 _INVALID_KIND = {(s, k, json.dumps(v)): kind for s, k, v, kind in INVALID}
+_INVALID_KIND.update({(s, k, json.dumps(v)): kind for s, k, v, kind, _ in INVALID_EXT})
+_PROVOKES = {(s, k, json.dumps(v)): exc for s, k, v, kind, exc in INVALID_EXT}
+# valid partners an extended invalid value is combined with (before it and after it): one per section
+EXT_PARTNERS = [["request", "method", "PATCH"], ["response", "reason", "Nope"], ["top", "comment", "edited"]]
+
+
+def jval(v):
+    return v["$raw"] if isinstance(v, dict) and set(v) == {"$raw"} else json.dumps(v)
+
+
+def ext_documents(full_pairs=False):
+    """every extended invalid value alone, and paired (both orders) with a valid field of every section;
+    full_pairs: paired with every valid field"""
+    out = []
+    partners = [list(f) for f in VALID] if full_pairs else EXT_PARTNERS
+    for s, k, v, _, _ in INVALID_EXT:
+        bad = [s, k, v]
+        out.append({"fields": [bad]})
+        for p in partners:
+            if p[0] == s and (k == "$section" or p[1] == k):
+                continue  # same JSON key / section given twice
+            out.append({"fields": [list(p), bad]})
+            out.append({"fields": [bad, list(p)]})
+    return out
 
 
 def _cleanup():
@@ -127,9 +202,13 @@ def render(doc):
     for sec, group in itertools.groupby(doc["fields"], key=lambda f: f[0] if f[0] != "top" else "top:" + f[1]):
         group = list(group)
         if group[0][0] == "top":
-            parts.append("%s: %s" % (json.dumps(group[0][1]), json.dumps(group[0][2])))
+            parts.append("%s: %s" % (json.dumps(group[0][1]), jval(group[0][2])))
+        elif group[0][1] == "$section":
+            if len(group) != 1:
+                raise HarnessError("a whole-section value cannot be combined with fields of that section: %r" % (group,))
+            parts.append("%s: %s" % (json.dumps(group[0][0]), jval(group[0][2])))
         else:
-            inner = ", ".join("%s: %s" % (json.dumps(k), json.dumps(v)) for _, k, v in group)
+            inner = ", ".join("%s: %s" % (json.dumps(k), jval(v)) for _, k, v in group)
             parts.append("%s: {%s}" % (json.dumps(group[0][0]), inner))
     return "application/json", ("{" + ", ".join(parts) + "}").encode()
 
@@ -266,6 +345,7 @@ def run_history(case, t: Tally, judge_last_only=True, verbose=False):
     s_init = state_of(flow)
     prior = "none"
     states = [s_init]
+    all_held = True
     s1 = s_init
     for i, doc in enumerate(case["puts"]):
         last = i == len(case["puts"]) - 1
@@ -295,19 +375,26 @@ def run_history(case, t: Tally, judge_last_only=True, verbose=False):
                 outcome = "accepted-but-incomplete"
             else:
                 outcome = "partially-applied"
-            feats = {"flow": kind, "invalid_kind": inv or "none", "invalid_pos": pos or "-", "prior": prior, "outcome": outcome}
+            provokes = "-"
+            for sec, key, val in doc.get("fields", []):
+                p = _PROVOKES.get((sec, key, json.dumps(val)))
+                if p:
+                    provokes = p
+                    break
+            feats = {"flow": kind, "invalid_kind": inv or "none", "invalid_pos": pos or "-", "prior": prior, "outcome": outcome, "provokes": provokes}
             exc = [m.split("::")[-1].strip()[:100] for lv, m in (r.log if r is not None else []) if "Uncaught exception" in m][:1]
             obs = {"status": status, "outcome": outcome, "missing_fields": missing, "exception": exc or crashed,
                    "changed_keys": sorted(k for k in set(s0) | set(s1) if s0.get(k) != s1.get(k))}
             if verbose:
                 print("  PUT %d %s -> %r" % (i + 1, render(doc)[1][:100], obs))
             if inv is not None:
-                t.judge("applies_fully_or_not_at_all", s1 == s0, feats, case, "document has an invalid part (%s): flow state exactly as before this request" % inv, obs)
+                held = t.judge("applies_fully_or_not_at_all", s1 == s0, feats, case, "document has an invalid part (%s): flow state exactly as before this request" % inv, obs)
             else:
-                t.judge("applies_fully_or_not_at_all", (ok2xx and not missing) or s1 == s0, feats, case,
-                        "2xx with every field applied, or flow state exactly as before this request", obs)
+                held = t.judge("applies_fully_or_not_at_all", (ok2xx and not missing) or s1 == s0, feats, case,
+                               "2xx with every field applied, or flow state exactly as before this request", obs)
                 if ok2xx:
-                    t.judge("accepted_edit_is_complete", not missing, feats, case, "every field of the accepted document is visible on the flow", obs)
+                    held = t.judge("accepted_edit_is_complete", not missing, feats, case, "every field of the accepted document is visible on the flow", obs) and held
+            all_held = all_held and bool(held)
             t.transitions += 1
             t.outcome([kind, inv or "none", prior, status, outcome])
             nontrivial = "fields" in doc or doc.get("envelope") == "non-object-section"
@@ -318,7 +405,8 @@ def run_history(case, t: Tally, judge_last_only=True, verbose=False):
     t.state(fp)
     t.executions += 1
     t.max_depth = max(t.max_depth, len(case["puts"]))
-    return fp
+    # a state reached through a violating transition is reported, not expanded (it may be corrupt, e.g. a None header value)
+    return fp if all_held else None
 
 
 def level_chunk(chunk):
@@ -347,14 +435,20 @@ def run(ctx):
 
         reduced = [list(f) for f in VALID if (f[0], f[1]) in (("request", "path"), ("response", "code"), ("top", "comment"))] + \
                   [list(f[:3]) for f in INVALID if (f[0], f[1], f[3]) in (("top", "foo", "unknown-field"), ("request", "port", "malformed-port-or-code"), ("response", "foo", "unknown-field"))]
-        docs1 = documents(3, third_pool=None if thorough else reduced)
+        ext1 = ext_documents(full_pairs=thorough)
+        docs1 = documents(3, third_pool=None if thorough else reduced) + ext1
         docs2 = documents(2)
         if not thorough:
             # second PUT of a history: every single field, and every pair whose second field is from the reduced pool
             docs2 = [d for d in docs2 if "envelope" in d or len(d["fields"]) == 1 or d["fields"][1] in reduced]
+        # extended invalid values as second PUT: alone, and (thorough) after a valid field of each section
+        docs2 = docs2 + [d for d in ext_documents() if len(d["fields"]) == 1 or (thorough and d["fields"][0] in EXT_PARTNERS)]
         prefix_len = 2 if thorough else 1
         ctx.bounds = {
             "flow_kinds": FLOW_KINDS, "valid_fields": len(VALID), "invalid_fields": len(INVALID), "envelope_faults": ENVELOPES,
+            "extended_invalid_values": "%d values (per field: wrong type, unparsable text, 1e999/Infinity/NaN, wrong container shape, deep nesting, unencodable text, "
+                                       "non-object section), each alone and paired in both orders with %s" % (
+                                           len(INVALID_EXT), "every valid field" if thorough else "one valid field of every section"),
             "level1_documents": "%d (ordered field lists of length <= 3%s, plus envelope faults)" % (len(docs1), "" if thorough else ", third field from a pool of 6"),
             "level2_documents": "%d (length <= 2%s, plus envelope faults)" % (len(docs2), "" if thorough else ", second field from a pool of 6"),
             "level2_prefixes": "every distinct state reached at level 1 by documents of length <= %d" % prefix_len,
@@ -375,6 +469,8 @@ def run(ctx):
         for t, fps in par.pmap(level_chunk, list(enumerate(cases1)), nchunks=nproc, nproc=nproc):
             ctx.tally.merge(t)
             for idx, fp in fps:
+                if fp is None:
+                    continue  # reached through a violating edit: reported at level 1, not expanded
                 case = cases1[idx]
                 d = case["puts"][0]
                 if len(d.get("fields", [0])) <= prefix_len:
